@@ -71,6 +71,31 @@ def main(tier, seed, prop=PROP, two=False):
         return rep.finish()
     docs = runner.parse_sources(engine.CORE_FILES)
     rng = random.Random(seed)
+    if two:
+        # data-directory clause: two constructions in one process with WALRUS_DATA_DIR changed in between
+        ddocs = runner.parse_sources(['src/wal/config.rs', 'src/wal/paths.rs'])
+        agg0 = runner.explore_jobs('rsym.drivers.nskey', 'mk', ddocs, [dict(len=0, ctor='env_twice', via=v) for v in ('for_key', 'default')], dict(seed=seed), 1, 120)
+        rep.absorb(agg0)
+        rep.states += len(agg0['results'])
+        rep.bounds['data_dirs'] = 'two constructions (keyed and default constructor) with WALRUS_DATA_DIR=/data1 then /data2 in one process'
+        script = dict(property=prop, config=dict(backend='fd'), ops=[
+            dict(op='open', inst='1', subdir='d1', via_env=True, key='tenant'), dict(op='open', inst='2', subdir='d2', via_env=True, key='tenant'),
+            dict(op='append', inst='1', topic='t', entries=[dict(uid=0, len=10)]), dict(op='append', inst='2', topic='t', entries=[dict(uid=1, len=10)]),
+            dict(op='read_next', inst='2', topic='t', checkpoint=True), dict(op='read_next', inst='2', topic='t', checkpoint=True), dict(op='list_dir')])
+        obs, e = replay.run_script(script)
+        rep.replays_run += 1
+        files = obs[-1].get('files', []) if obs and not e else None
+        nat_bad = files is None or not any(f.startswith('d2/tenant/') and not f.endswith('/') for f in files) or [en.get('uid') for en in obs[4].get('entries', [])] != [1] or obs[5].get('entries')
+        mod_bad = [r for r in agg0['results'] if r['verdict'] == 'cex']
+        if not agg0['results']:
+            rep.inconclusive.append('data-directory clause: the interpreter produced no result (%s)' % (agg0.get('errors') or agg0.get('incomplete')))
+        elif bool(mod_bad) != bool(nat_bad):
+            rep.inconclusive.append('MODEL-MISMATCH: data-directory clause: interpreter %s, native listing %s' % ([r.get('detail') for r in mod_bad], json.dumps(obs)[:400]))
+        else:
+            rep.replays_agreed += 1
+            if mod_bad:
+                path = runner.write_replay(prop, 'datadir_env_twice', script)
+                rep.violation(path, '%s; natively the second instance reads %s and d2/tenant holds %s' % (mod_bad[0]['detail'], obs[4].get('entries'), [f for f in files if f.startswith('d2/')]))
     # targeted fixed suffixes first (cheap): consuming reads followed by one non-consuming call of every kind
     fixed = []
     for last in ('oA', 'oB', 'PA', 'pA'):
